@@ -695,14 +695,19 @@ def system_events(ssc):
 
 
 # ------------------------------------------------------------------------------------------------------ judge
+def jvm_options(nevents):
+    """Many short-lived judge JVMs run side by side: keep each one cheap (no C2 compiler for short batches, two GC threads)."""
+    return ('-XX:TieredStopAtLevel=1 ' if nevents < 600 else '') + '-XX:ParallelGCThreads=2 -XX:CICompilerCount=%d' % (1 if nevents < 600 else 2)
+
+
 def _judge(shard):
     """TLC on a list of (scenario, event) -> (distinct, generated, {index from 1: verdict})."""
     work = tlc.scratch('c15_')
     try:
         clean = [{k: v for k, v in ev.items() if k != 'role'} for _, ev in shard]
         tf = tlc.write_json(work, 'trace.json', clean)
-        res = tlc.run('Trace_ElasticNet', 'SPECIFICATION Spec\n', dump=True, env={'TRACE_FILE': tf}, workdir=work, workers=2,
-                      timeout=1800)
+        res = tlc.run('Trace_ElasticNet', 'SPECIFICATION Spec\n', dump=True, env={'TRACE_FILE': tf, '_JAVA_OPTIONS': jvm_options(len(shard))},
+                      workdir=work, workers=2, timeout=1800)
         if res.violated:
             raise tlc.MachineryError('Trace_ElasticNet violated ' + str(res.violated))
         verdicts = {st['tid']: st['verdict'] for st in res.states() if st['verdict']['v'] != 'pending'}
@@ -798,12 +803,15 @@ def _replay_chunk(args):
     rng = random.Random(seed)
     bad, judged, n = [], [], 0
     nontrivial, sample, inhabited, hinge = [], [], 0, 0
-    if isinstance(states, tuple):                       # (dump file, first byte, end byte): read and parse here, in parallel
-        path, start, end = states
+    if isinstance(states, tuple):                       # (dump file, [(first byte, end byte)...]): read and parse here, in parallel
+        path, ranges = states
+        parsed = []
         with open(path, 'rb') as fh:
-            fh.seek(start)
-            text = fh.read(end - start).decode()
-        states = [st for st in map(tlaval.parse_state_body, tlaval._STATE_HDR.split(text)[2::2]) if (0, 0) not in st['out']]
+            for start, end in ranges:
+                fh.seek(start)
+                text = fh.read(end - start).decode()
+                parsed += [st for st in map(tlaval.parse_state_body, tlaval._STATE_HDR.split(text)[2::2]) if (0, 0) not in st['out']]
+        states = parsed
     for st in states:
         sc = scenario_of_state(st['m'], rng)
         rec = run_real(sc)
@@ -1015,13 +1023,13 @@ def run(tier, seed, ev, vd):
         jobs = [f for f in FAMILIES for _ in range(per)] + ['hist'] * (per // 2)
         random.Random(seed).shuffle(jobs)
         ntasks = tlc.NCPU * (1 if quick else 6)
-        cutpoints = common.chunks(range(res.distinct), ntasks)
-        jobparts = common.chunks(jobs, ntasks)
+        pieces = common.chunks(range(res.distinct), ntasks * 8)     # TLC dumps the unevaluated states first: deal the file out in
+        jobparts = common.chunks(jobs, ntasks)                       # small pieces, round robin, so that every worker gets rows
         tasks = []
-        for i in range(max(len(cutpoints), len(jobparts))):
-            c = cutpoints[i] if i < len(cutpoints) else None
+        for i in range(ntasks):
+            mine = [(offsets[c[0]], offsets[c[-1] + 1]) for c in pieces[i::ntasks]]
             tasks.append((jobparts[i] if i < len(jobparts) else [], seed * 7919 + 2 * i,
-                          (res.dump_path, offsets[c[0]], offsets[c[-1] + 1]) if c else None, 0.04 if quick else 0.05))
+                          (res.dump_path, mine) if mine else None, 0.04 if quick else 0.05))
         hist, roles = {}, {}
         nrows = inhabited = hinge = 0
         with mp.Pool(tlc.NCPU) as pool:
